@@ -170,6 +170,26 @@ func C08() int {
 			}
 		}
 	}
+	// ---- writer: a real errno (EAGAIN on a non-blocking pipe, EINTR, ENOSPC, EPIPE, EIO), outright or after a part of
+	// the block was taken, as a lasting and as a transient condition (the next Write call would succeed)
+	for i, in := range ins {
+		if nwrites[i] == 0 {
+			continue
+		}
+		ks := []int{1, 2, (nwrites[i] + 1) / 2, nwrites[i]}
+		for ei, errno := range []string{"EAGAIN", "EINTR", "ENOSPC", "EPIPE", "EIO"} {
+			for ki, k := range ks {
+				if k < 1 || k > nwrites[i] || (ki > 0 && k == ks[ki-1]) {
+					continue
+				}
+				for si, sh := range []int{0, 1, 3000} {
+					once := (ei+ki+si)%2 == 0
+					faults = append(faults, fault{i, sut.AgentCmd{"op": "stream", "input_b64": b64(in.data), "fail_write_at": k, "short_write": sh, "write_errno": errno, "write_once": once}, "write",
+						fmt.Sprintf("write #%d fails with %s after accepting ≤%d bytes (transient: %v)", k, errno, sh, once), sh != 0, false, 0})
+				}
+			}
+		}
+	}
 	// ---- reader: k-th Read fails under chunkings; every byte offset on small inputs
 	for i, in := range ins {
 		if len(in.data) > 40000 && !in.overLong {
